@@ -79,7 +79,8 @@ def build(spec):
         v1, op, v2, tgt, form = spec["v1"], spec["op"], spec["v2"], spec["tgt"], spec["form"]
         decl = {"x": f"x := {v1}\n", "xs[0]": f"xs := [{v1}]\n", "o.k": f"o := {{\"k\": {v1}}}\n"}[tgt]
         stmt = f"{tgt} {op}= {v2}\n" if form == "opassign" else f"{tgt} = {tgt} {op} {v2}\n"
-        body = decl + stmt + f"print({tgt})\n"
+        # (`old` is what the target held before: a list that was there must not be extended by either form)
+        body = decl + f"old := {tgt}\n" + stmt + f"print({tgt})\nprint(old)\n"
     else:
         raise ValueError(k)
     return body + li.trailer(PID, spec)
